@@ -232,6 +232,8 @@ def check_deserialize(chk, crate, adt):
 def check_isaac_array_serde(chk, crate):
     skey = dkey = vkey = None
     for key in crate.bodies:
+        if crate.bodies[key]["kind"] == "Closure" or "{closure" in key:
+            continue  # closures inside the three functions are evaluated as part of them
         if "isaac_array_serde::serialize" in key:
             skey = key
         elif "isaac_array_serde::deserialize" in key and "visit_seq" in key:
